@@ -8,7 +8,7 @@ mkdir -p $M && rsync -a --delete --exclude target --exclude .git /repo/ $M/ || e
 ( cd $M && patch -p1 -s < "$PATCH" ) || { echo "patch does not apply"; rm -rf $M; exit 2; }
 cd /verif
 for c in "$@"; do
-  out=$(PV_REPO=$M PV_EVIDENCE_DIR=/tmp/main_mut_ev_$$ timeout 1500 ./check $c --tier ${TIER:-quick} 2>&1); rc=$?
+  out=$(PV_REPO=$M PV_EVIDENCE_DIR=/tmp/main_mut_ev_$$ timeout -k 10 2400 ./check $c --tier ${TIER:-quick} 2>&1); rc=$?
   echo "== $c exit=$rc $(echo "$out" | grep -c '^VIOLATION') violation line(s): $(echo "$out" | grep -m1 '^#' | cut -c1-160)"
 done
 tag=$(python3 -c "import hashlib,os;print(hashlib.sha1(os.path.realpath('$M').encode()).hexdigest()[:8])")
